@@ -4,9 +4,9 @@
    program over physical registers and frame slots) has the same behaviour for every input, every instruction
    semantics respecting the declared uses/defs, and every initial content of registers and stack.
    Universal over inputs; the programs are generated (sampled) by the check. *)
-From Coq Require Import ZArith NArith List Bool Arith.
+From Coq Require Import ZArith NArith List Bool Arith Lia.
 From Verif Require Import RegAlloc.RaIRModel RegAlloc.RaIRProofs RegAlloc.RaIRProgress RegAlloc.RaIRExamples.
-From Verif Require Import RegAlloc.RwRuleModel RegAlloc.RwRuleProofs RegAlloc.SaTrackProofs.
+From Verif Require Import RegAlloc.RwRuleModel RegAlloc.RwRuleProofs RegAlloc.SaTrackProofs RegAlloc.RankComplete.
 From VerifGen Require Import C05IdiomTags.
 Import ListNotations.
 Local Open Scope Z_scope.
@@ -270,3 +270,226 @@ Theorem C05_rejects_by_reference_argument_overwritten_or_without_pointer :
   validate ex_src_byref ex_byref_no_pointer [Some 0; Some 1; None; Some 2; Some 4]%nat = false.
 Proof. exact (conj ex_byref_overwritten_rejected ex_byref_no_pointer_rejected). Qed.
 Print Assumptions C05_rejects_by_reference_argument_overwritten_or_without_pointer.
+
+(* ================================================================== round 6 *)
+
+(* ---- bounded slowdown (quantitative form of C05_termination_preserved): if the source returns within K instructions, the
+   accepted allocated program returns the same values in the same world within (K+1)*(B+1) instructions, B = the largest
+   progress rank - i.e. the allocator's inserted moves/swaps/labels/jumps form runs shorter than B+1 between matched
+   instructions, on every path, for every instruction semantics *)
+Theorem C05_allocated_program_steps_bounded : forall sp tp hs, validate_full sp tp hs = true ->
+  forall (world : Type) (sem : opcode -> list Z -> world -> list Z * world) (semc : opcode -> list Z -> world -> bool) V0 T0 W K res W',
+    srun world sem semc K sp (O, V0, W) = Halt res W' ->
+    exists n, (n <= (K + 1) * (list_max (infer_ranks tp) + 1))%nat /\ trun world sem semc n tp (O, T0, W) = Halt res W'.
+Proof. exact validate_full_steps_bounded. Qed.
+Print Assumptions C05_allocated_program_steps_bounded.
+
+(* not vacuous: the accepted spill loop has B = 3 (so at most 4 target instructions per source instruction), and the bound is
+   a consequence for it; the refused spinning program is not covered (validate_full is false there) *)
+Theorem C05_steps_bound_example :
+  list_max (infer_ranks ex_good) = 3%nat /\ validate_full ex_src ex_good ex_good_h = true /\
+  (forall (world : Type) sem semc V0 T0 (W : world) K res W', srun world sem semc K ex_src (O, V0, W) = Halt res W' ->
+     exists n, (n <= (K + 1) * 4)%nat /\ trun world sem semc n ex_good (O, T0, W) = Halt res W').
+Proof.
+  split; [vm_compute; reflexivity|]. split; [exact ex_good_full|].
+  intros world sem semc V0 T0 W K res W' H.
+  exact (validate_full_steps_bounded ex_src ex_good ex_good_h ex_good_full world sem semc V0 T0 W K res W' H).
+Qed.
+Print Assumptions C05_steps_bound_example.
+
+(* ---- the partial-write rule, completeness direction: the use of the old register that classify adds for a partial write is
+   NECESSARY. If the write does not cover the virtual register, some byte of it keeps its old content whatever the
+   instruction computes - two executions differing in that byte of the old value differ in the result, so "pure definition"
+   would be wrong. And exactly then: a covering write lets no old byte of the virtual register through. *)
+Theorem C05_partial_write_needs_the_old_value : forall r,
+  (is_partial r = true ->
+     exists i, (i < r_vsize r)%nat /\ (forall old res, hw_byte (r_wmask r) (r_emask r) old res i = byte i old) /\
+               (forall res, hw_byte (r_wmask r) (r_emask r) 0 res i <> hw_byte (r_wmask r) (r_emask r) (256 ^ Z.of_nat i) res i)) /\
+  (is_partial r = false ->
+     forall old old' res i, (i < r_vsize r)%nat -> hw_byte (r_wmask r) (r_emask r) old res i = hw_byte (r_wmask r) (r_emask r) old' res i).
+Proof.
+  intros r. split.
+  - intros H. destruct (partial_write_keeps_a_byte r H) as [i [Hi Hk]]. exists i. split; [exact Hi|]. split; [exact Hk|].
+    intros res. rewrite !Hk. unfold byte. rewrite Z.div_0_l by (apply Z.pow_nonzero; lia). rewrite Z.div_same by (apply Z.pow_nonzero; lia).
+    cbn. discriminate.
+  - intros H old old' res i Hi. exact (covering_write_ignores_old_value r old old' res H i Hi).
+Qed.
+Print Assumptions C05_partial_write_needs_the_old_value.
+
+(* ---- the rule on the legacy-SSE destination shapes InstAPI::query_rw_info reports since 75c576a/30f5035 (raw facts as
+   printed by the harness for a 16-byte virtual register): movlps/movlpd x,[m] (write mask 0x00FF, nothing extended),
+   movhps (0xFF00), movss x,x (0x000F), cvtsi2sd (0x00FF) are partial -> the old 16 bytes are a use; movss x,[m]
+   (0x000F written, 0xFFF0 cleared), movq x,r (0x00FF / 0xFF00) and movaps cover the register -> pure definitions; paddd
+   reads and writes all 16 bytes. And what the CPU does for movlps: bytes 0-7 from the result, bytes 8-15 kept. *)
+Definition raw_sse_dst (rd : bool) (wm em : N) (rm : nat) (isrm : bool) : rawop :=
+  mkRaw rd true (if rd then 65535 else 0)%N wm em rm isrm 16 false 16 true.
+Theorem C05_partial_write_rule_legacy_sse_shapes :
+  classify false INone (raw_sse_dst false 255 0 0 false) = ([16], [16])%nat /\          (* movlps / movlpd / cvtsi2sd *)
+  classify false INone (raw_sse_dst false 65280 0 0 false) = ([16], [16])%nat /\        (* movhps *)
+  classify false INone (raw_sse_dst false 15 0 4 true) = ([16], [16])%nat /\            (* movss x, x *)
+  classify false INone (raw_sse_dst false 15 65520 4 true) = ([], [16])%nat /\          (* movss x, [m] *)
+  classify false INone (raw_sse_dst false 255 65280 0 false) = ([], [16])%nat /\        (* movq x, r *)
+  classify false INone (raw_sse_dst false 65535 0 16 true) = ([], [16])%nat /\          (* movaps *)
+  classify false INone (raw_sse_dst true 65535 0 0 false) = ([16], [16])%nat /\         (* paddd *)
+  (forall old res i, (i < 8)%nat -> hw_byte 255 0 old res i = byte i res) /\
+  (forall old res i, (8 <= i < 16)%nat -> hw_byte 255 0 old res i = byte i old).
+Proof.
+  repeat (split; [vm_compute; reflexivity|]). split; intros old res i Hi; unfold hw_byte, mbit.
+  - do 8 (destruct i as [|i]; [reflexivity|]). lia.
+  - do 8 (destruct i as [|i]; [lia|]). do 8 (destruct i as [|i]; [reflexivity|]). lia.
+Qed.
+Print Assumptions C05_partial_write_rule_legacy_sse_shapes.
+
+(* at the validator: with those uses/defs a movlps whose register lives in a slot needs the full reload; treating it as a
+   pure definition (fresh register) or reloading only the 8 written bytes is refused *)
+Theorem C05_accepts_partial_sse_write_after_full_reload :
+  validate_full ex_src_movlps ex_movlps_good [Some 0; None; None; Some 1; Some 2; Some 4]%nat = true.
+Proof. exact ex_movlps_accepted. Qed.
+Print Assumptions C05_accepts_partial_sse_write_after_full_reload.
+
+Theorem C05_rejects_partial_sse_write_as_pure_definition :
+  validate ex_src_movlps ex_movlps_pure_def [Some 0; None; Some 1; Some 2; Some 4]%nat = false /\
+  validate ex_src_movlps ex_movlps_half_reload [Some 0; None; None; Some 1; Some 2; Some 4]%nat = false.
+Proof. exact (conj ex_movlps_pure_def_rejected ex_movlps_half_reload_rejected). Qed.
+Print Assumptions C05_rejects_partial_sse_write_as_pure_definition.
+
+(* ---- frame condition: a register that no instruction of the allocated program has among its defs (the driver checks this
+   for zbp in functions that keep a frame pointer, whose stack arguments the dumper names by their offset from zbp) has the
+   same content after any number of steps from any configuration, for any instruction semantics *)
+Theorem C05_undefined_register_is_constant : forall g i tp, reg_untouched g i tp = true ->
+  forall (world : Type) (sem : opcode -> list Z -> world -> list Z * world) (semc : opcode -> list Z -> world -> bool)
+         n pc T W pc' T' W',
+  trun world sem semc n tp (pc, T, W) = Next (pc', T', W') -> rs T' g i = rs T g i.
+Proof. intros g i tp H world sem semc. exact (untouched_constant world sem semc g i tp H). Qed.
+Print Assumptions C05_undefined_register_is_constant.
+
+Theorem C05_undefined_register_examples :
+  reg_untouched 0 5 ex_good = true /\ reg_untouched 0 7 ex_good = false /\
+  reg_untouched 0 5 [TMove (LReg 0 5) (LSlot 0) 8 false 8] = false /\ reg_untouched 0 5 [TSwap (LReg 0 1) (LReg 0 5) 8] = false /\
+  reg_untouched 0 5 [TOp 1%N [(LReg 0 5, 8%nat)] [(LReg 0 1, 8%nat)]; TMove (LSlot 0) (LReg 0 5) 8 false 8] = true.
+Proof. vm_compute. repeat split; reflexivity. Qed.
+Print Assumptions C05_undefined_register_examples.
+
+(* ---- frame condition of the allocator's inserted instructions (what must NOT change): a move, swap, label or jump of the
+   allocated program leaves the world alone, every register it does not define and every stack byte outside the w bytes
+   of a slot it stores to - for any program, configuration and instruction semantics. (The same instruction forms are
+   executed on the host CPU on every run and compared with tstep on whole registers and a 128-byte stack window.) *)
+Theorem C05_inserted_instructions_frame :
+  forall (world : Type) (sem : opcode -> list Z -> world -> list Z * world) (semc : opcode -> list Z -> world -> bool)
+         tp pc ins T W pc' T' W',
+  nth_error tp pc = Some ins -> is_inserted_kind ins = true ->
+  tstep world sem semc tp (pc, T, W) = Next (pc', T', W') ->
+  W' = W /\ (forall g i, defines_reg g i ins = false -> rs T' g i = rs T g i) /\ (forall a, stores_byte ins a = false -> st T' a = st T a).
+Proof. exact inserted_frame. Qed.
+Print Assumptions C05_inserted_instructions_frame.
+
+Theorem C05_inserted_instructions_frame_examples :
+  stores_byte (TMove (LSlot 32) (LReg 1 1) 16 false 16) 31 = false /\ stores_byte (TMove (LSlot 32) (LReg 1 1) 16 false 16) 32 = true /\
+  stores_byte (TMove (LSlot 32) (LReg 1 1) 16 false 16) 47 = true /\ stores_byte (TMove (LSlot 32) (LReg 1 1) 16 false 16) 48 = false /\
+  stores_byte (TMove (LReg 0 1) (LSlot 32) 8 false 8) 32 = false /\ defines_reg 0 1 (TMove (LReg 0 1) (LSlot 32) 8 false 8) = true /\
+  defines_reg 0 2 (TSwap (LReg 0 1) (LReg 0 2) 8) = true /\ defines_reg 0 3 (TSwap (LReg 0 1) (LReg 0 2) 8) = false /\
+  is_inserted_kind (TOp 1%N [] []) = false.
+Proof. vm_compute. repeat split; reflexivity. Qed.
+Print Assumptions C05_inserted_instructions_frame_examples.
+
+(* ---- by-reference call arguments: "lea p, [sp+k]" makes p the address of temporary k at instruction s; the copy
+   "movaps [q], x" behind it is read as "slot k := x" only while q is in sa_from. This theorem: if instruction s, whenever
+   it runs and falls through, leaves the address A in the registers m0, then along ANY execution from the entry, in front of
+   any instruction other than a label, every register of sa_from aw p s m0 pc holds A (copies and exchanges are followed,
+   any other definition, label or jump forgets) *)
+Theorem C05_temporary_address_tracking_sound :
+  forall (world : Type) (sem : opcode -> list Z -> world -> list Z * world) (semc : opcode -> list Z -> world -> bool)
+         (aw : nat) (A : Z) (p : tprog) (s : nat) (m0 : list N) (n : nat) T0 W0 pc T W i,
+  (forall T W T' W', tstep world sem semc p (s, T, W) = Next (S s, T', W') -> forall r, In r m0 -> tr aw (rs T' 0%N r) = A) ->
+  trun world sem semc n p (0%nat, T0, W0) = Next (pc, T, W) ->
+  nth_error p pc = Some i -> (forall l, i <> TLabel l) ->
+  forall r, In r (sa_from aw p s m0 pc) -> tr aw (rs T 0%N r) = A.
+Proof. intros world sem semc aw A p s m0 n T0 W0 pc T W i. exact (sa_from_sound_entry world sem semc aw A p s m0 n T0 W0 pc T W i). Qed.
+Print Assumptions C05_temporary_address_tracking_sound.
+
+Theorem C05_temporary_address_tracking_examples :
+  let p := [TOp 1%N [] [(LReg 0 7, 8%nat)]; TOp 30%N [] [(LReg 0 0, 8%nat)]; TMove (LSlot 32) (LReg 1 1) 16 false 16;
+            TMove (LReg 0 1) (LReg 0 0) 8 false 8; TOp 2%N [] [(LReg 0 0, 8%nat)]; TLabel 3%N; TMove (LReg 0 2) (LReg 0 1) 8 false 8] in
+  map (sa_from 8 p 1 [0%N]) [0; 1; 2; 3; 4; 5; 6; 7]%nat = [[]; []; [0]; [0]; [1; 0]; [1]; []; []]%N.
+Proof. vm_compute. reflexivity. Qed.
+Print Assumptions C05_temporary_address_tracking_examples.
+
+(* ---- completeness of the progress part: if ANY rank assignment passes check_progress, the inferred one (fuel = length of
+   the program) passes. So the refusal "cycle-of-inserted-instructions" is never spurious: validate_full refuses an
+   allocation that validate accepts only if NO ranking exists, i.e. the inserted code contains a cycle. *)
+Theorem C05_progress_check_is_complete : forall tp, (exists rk, check_progress tp rk = true) -> check_progress tp (infer_ranks tp) = true.
+Proof. exact progress_check_complete. Qed.
+Print Assumptions C05_progress_check_is_complete.
+
+Theorem C05_validate_full_refuses_only_real_cycles : forall sp tp hs,
+  validate sp tp hs = true -> (exists rk, check_progress tp rk = true) -> validate_full sp tp hs = true.
+Proof. intros sp tp hs Hv Hr. unfold validate_full. rewrite Hv. exact (progress_check_complete tp Hr). Qed.
+Print Assumptions C05_validate_full_refuses_only_real_cycles.
+
+(* not vacuous in both directions: the correct spill loop has a ranking (so the inferred one passes), and for the program
+   whose inserted code spins NO ranking whatsoever passes *)
+Theorem C05_progress_completeness_examples :
+  check_progress ex_good (infer_ranks ex_good) = true /\ (forall rk, check_progress ex_spin rk = false).
+Proof.
+  split; [vm_compute; reflexivity|]. intros rk. destruct (check_progress ex_spin rk) eqn:H; [|reflexivity].
+  assert (Hc : check_progress ex_spin (infer_ranks ex_spin) = true) by (apply progress_check_complete; exists rk; exact H).
+  vm_compute in Hc. discriminate Hc.
+Qed.
+Print Assumptions C05_progress_completeness_examples.
+
+(* ---- the progress check characterised: the inferred ranks pass IF the inserted code has no jump to a missing label and no
+   silent cycle (k+1 inserted-kind steps leading from an instruction back to itself), and ONLY IF (any passing ranking
+   excludes both). So "cycle-of-inserted-instructions" is refused exactly when such a cycle (or dangling jump) is in the
+   dumped program text. *)
+Theorem C05_progress_check_accepts_exactly_acyclic_inserted_code : forall tp,
+  ((forall t, (t < length tp)%nat -> bad_jmp tp t = false) -> (forall k t, nxt_iter tp (S k) t <> Some t) ->
+     check_progress tp (infer_ranks tp) = true) /\
+  (forall rk, check_progress tp rk = true ->
+     (forall t, (t < length tp)%nat -> bad_jmp tp t = false) /\ (forall k t, nxt_iter tp (S k) t <> Some t)).
+Proof. intros tp. split; [exact (progress_check_acyclic tp)|exact (ranking_excludes_cycles tp)]. Qed.
+Print Assumptions C05_progress_check_accepts_exactly_acyclic_inserted_code.
+
+(* the refused example contains exactly such a cycle *)
+Theorem C05_silent_cycle_example : exists t k, nxt_iter ex_spin (S k) t = Some t.
+Proof.
+  assert (H : existsb (fun t => existsb (fun k => match nxt_iter ex_spin (S k) t with Some x => Nat.eqb x t | None => false end) (seq 0 (length ex_spin))) (seq 0 (length ex_spin)) = true)
+    by (vm_compute; reflexivity).
+  apply existsb_exists in H. destruct H as [t [_ H]]. apply existsb_exists in H. destruct H as [k [_ H]].
+  exists t, k. destruct (nxt_iter ex_spin (S k) t) as [x|]; [|discriminate]. apply Nat.eqb_eq in H. subst. reflexivity.
+Qed.
+Print Assumptions C05_silent_cycle_example.
+
+(* ---- the refusal is justified semantically: inserted-kind instructions step to their silent successor whatever the
+   instruction semantics and the machine state are, so an allocated program standing at an instruction of a silent cycle
+   runs forever - it never returns, never gets stuck and never changes the world again *)
+Theorem C05_silent_cycle_diverges :
+  forall (world : Type) (sem : opcode -> list Z -> world -> list Z * world) (semc : opcode -> list Z -> world -> bool) tp k t,
+  nxt_iter tp (S k) t = Some t ->
+  forall T W n, exists pc T', trun world sem semc n tp (t, T, W) = Next (pc, T', W).
+Proof. exact silent_cycle_diverges. Qed.
+Print Assumptions C05_silent_cycle_diverges.
+
+(* ---- read side of the classification: for a register operand that is read (x86; not narrowed by a memory form) every byte
+   of the read mask lies below a use width that classify emits - whatever the write side adds to or changes in the result *)
+Theorem C05_classify_read_covers_read_mask : forall id r,
+  r_read r = true -> id <> IWO -> r_ismem r = false -> (r_write r = true \/ r_isrm r = false \/ r_rm r = O) ->
+  forall i, mbit (r_rmask r) i = true -> exists u, In u (fst (classify false id r)) /\ (i < u)%nat.
+Proof. exact classify_read_covers_mask. Qed.
+Print Assumptions C05_classify_read_covers_read_mask.
+
+(* not vacuous: paddd's destination (reads and writes 16 bytes) and a read-only 8-byte source; with the write-only idiom
+   class the read is deliberately dropped (the hypothesis id <> IWO is needed) *)
+Theorem C05_classify_read_examples :
+  classify false INone (raw_sse_dst true 65535 0 0 false) = ([16], [16])%nat /\
+  classify false INone (mkRaw true false 255 0 0 0 false 8 false 8 false) = ([8], [])%nat /\
+  classify false IWO (mkRaw true true 255 255 0 0 false 8 false 8 true) = ([], [8])%nat /\
+  mbit 255 7 = true /\ mbit 255 8 = false.
+Proof. vm_compute. repeat split; reflexivity. Qed.
+Print Assumptions C05_classify_read_examples.
+
+(* ---- completeness of the register-list condition: every list the CPU can use (the expansion of any lead register, of any
+   length) is accepted by consec_ok - together with C05_register_list_is_what_the_cpu_uses the check accepts exactly the
+   consecutive (modulo 32) lists *)
+Theorem C05_register_list_check_is_complete : forall g id n, consec_ok (expand_list g id n) = true.
+Proof. exact consec_ok_complete. Qed.
+Print Assumptions C05_register_list_check_is_complete.
